@@ -54,9 +54,9 @@ struct C06 : Property
 	{
 		return {"O.replace_keeps_position", "O.reinsert_after_delete_goes_last", "O.delete_absent_key", "O.growth_with_tombstones", "O.delete_current_key_in_foreach", "O.add_ex_key_is_new",
 		        "O.add_ex_constant_key", "O.empty_key", "O.long_key", "O.perllike_hash", "O.default_hash", "O.alloc_failure_leaves_map_unchanged", "L.table_size_1", "L.constant_hash_all_collide",
-		        "L.explicit_resize", "L.tombstone_reuse", "L.alloc_failure_leaves_map_unchanged", "seed_source_consulted", "O.delete_current_member_in_visitor", "O.global_hash_switched_while_object_lives"};
+		        "L.explicit_resize", "L.tombstone_reuse", "L.alloc_failure_leaves_map_unchanged", "seed_source_consulted", "O.delete_current_member_in_visitor", "O.global_hash_switched_while_object_lives", "seed_source_returned_minus_one_first"};
 	}
-	std::map<std::string, int64_t> cfg_defaults() const override { return {{"perllike", 0}}; }
+	std::map<std::string, int64_t> cfg_defaults() const override { return {{"perllike", 0}, {"first_draws_minus_one", 0}}; }
 
 	void process_init(uint64_t process_seed) override { g_seed.base = process_seed | 1; }
 	void stamp_process_cfg(Plan &p) override { p.cfg["hash_seed_base"] = (int64_t)g_seed.base; }
@@ -95,6 +95,8 @@ struct C06 : Property
 		int layer = r.chance(1, 3) ? 1 : 0; // 1 = lh_table directly
 		p.cfg["layer"] = layer;
 		p.cfg["perllike"] = r.chance(1, 3);
+		if (layer == 0 && !p.cfg["perllike"] && r.chance(1, 150))
+			p.cfg["first_draws_minus_one"] = (int64_t)r.range(1, 2);
 		if (layer == 1)
 		{
 			p.cfg["tsize"] = (int64_t)r.range(1, 8);
@@ -807,8 +809,37 @@ struct C06 : Property
 			ctx.fail("C06:leak@" + g_alloc.first_live_site(), "%zu allocation(s) remain after lh_table_free:%s", g_alloc.live.size(), g_alloc.describe_live().c_str());
 	}
 
+	bool process_dirty = false; // the default key hash may already have drawn its seed in this process
+
 	void run(const Plan &p, RunCtx &ctx) override
 	{
+		// "any hash seed" includes the draws the seed source can make: the value -1 is json-c's "not drawn yet" marker and must be
+		// redrawn.  The seed is drawn once per process, so such a run needs a virgin process whose seed source starts with -1.
+		int minus_one = (int)p.c("first_draws_minus_one");
+		if (minus_one > 0)
+		{
+			if (process_dirty)
+			{
+				Outcome o;
+				if (!execute_plan_fresh_process(*this, p, o))
+					ctx.fail("C06:harness", "could not start a fresh process");
+				adopt_outcome(ctx, o);
+				ctx.check();
+				return;
+			}
+			g_seed.queue.assign((size_t)minus_one, 0xffffffffu);
+			g_seed.pos = 0;
+			ctx.probe("seed_source_returned_minus_one_first");
+		}
+		process_dirty = true;
+		struct QueueGuard
+		{
+			~QueueGuard()
+			{
+				g_seed.queue.clear();
+				g_seed.pos = 0;
+			}
+		} queue_guard;
 		if (p.c("layer") == 1)
 			run_table_layer(p, ctx);
 		else
